@@ -181,7 +181,9 @@ CLAIMS = {
             "parse.docstring reads from the docstring emit.function wrote (to_docstring with every helper it calls, then "
             "inspect.cleandoc as ast.get_docstring applies it, then the ReST parser) is the description it was written from, "
             "at EVERY indentation level, for any number of uniquely named, typed, described, default-free entries and texts "
-            "of any length (types in the docstring, separating indentation on; no defaults, no return entry), and "
+            "of any length (types in the docstring, emit_separating_tab=True - with the default False of emit.function the "
+            "lines are not behind a uniform margin and that case is tied by the func_doc_rt / func_kind layers only; no "
+            "defaults, no return entry), and "
             "FuncDocInline.C03_docstring_half_inline_partial - the same with the types in the signature (inline_types=True, the "
             "default): :param lines only, every entry read back with its prose. Its parts: "
             "ToDocstring.toDocstring_text (the closed form of the emitted text, types in the docstring or not, separating "
